@@ -62,6 +62,10 @@ def build_cases(tier):
     # the SAME boxed value on both sides: an uncomparable dynamic type still panics (no identity shortcut), also inside structs / arrays / switch
     C.append(T('uncomparable_same_object', 'type holder struct{ v interface{} }\n', 'var a interface{} = []int{1}\nb := a\nm := map[string]int{}\nvar c interface{} = m\nh1 := holder{a}\nh2 := holder{a}\nk := NondetRange(0, 0, 4)\nprintln("s")\nswitch k {\ncase 0:\n\tprintln("e", a == b)\ncase 1:\n\tprintln("e", c == c)\ncase 2:\n\tprintln("e", h1 == h2)\ncase 3:\n\tswitch a {\n\tcase b:\n\t\tprintln("e", true)\n\t}\ncase 4:\n\tvar n interface{}\n\tprintln("e", n == n, a != nil)\n}',
                lambda inp: [('(< in_0 4)', [('s', [])], ('panic', 'comparing uncomparable type')), ('(= in_0 4)', [('s', []), ('e', ['true', 'true'])], 'normal')]))
+    # uncomparable fields nested in structs and arrays, with the types declared before and after the types that contain them
+    C.append(T('uncomparable_nested_types', 'type outerA struct{ b midB }\ntype midB struct{ c leafC }\ntype leafC struct{ s []int }\ntype leafZ struct{ m map[int]int }\ntype midY struct{ z [1]leafZ }\ntype outerW struct{ y midY }\ntype fine struct{ a [2]struct{ p *leafC } }\ntype fn struct{ f func() }\n',
+               'k := NondetRange(0, 0, 9)\nvals := []interface{}{outerA{}, midB{}, leafC{}, outerW{}, midY{}, [1]leafZ{}, [2]outerA{}, struct{ a outerA }{}, fn{}, fine{}}\nprintln("s")\nprintln("e", vals[k] == vals[k])',
+               lambda inp: [('(< in_0 9)', [('s', [])], ('panic', 'comparing uncomparable type')), ('(= in_0 9)', [('s', []), ('e', ['true'])], 'normal')]))
     C.append(T('uncomparable', '', 'var a, b interface{}\nswitch NondetRange(0, 0, 2) {\ncase 0:\n\ta, b = 1, 1\ncase 1:\n\ta, b = []int{1}, []int{1}\ncase 2:\n\ta, b = []int{1}, 2\n}\nprintln("a")\nprintln("e", a == b)',
                lambda inp: [('(= in_0 0)', [('a', []), ('e', ['true'])], 'normal'), ('(= in_0 2)', [('a', []), ('e', ['false'])], 'normal'),
                             ('(= in_0 1)', [('a', [])], ('panic', 'comparing uncomparable type'))]))
